@@ -17,6 +17,7 @@ Record bfacts := mkBFacts {
   b_list_len : guard;                                  (* parse_slash_list *)
   b_word_mask : Z;
   b_empty_panics : bool;                               (* ConnBuffer::read on input without a header line: todo!() *)
+  b_nul_err : bool;                                    (* parse_record rejects a surface containing NUL (else yada asserts) *)
   b_empty_trie_err : bool;                             (* build_trie returns an error when no entry is indexed (else yada asserts) *)
   b_hdr_left_g : list guard; b_hdr_right_g : list guard;
   b_hdr_fields : nat; b_line_fields : nat;
@@ -114,14 +115,15 @@ Record rec := mkRec {
   r_mode : option Z;              (* Some 0/1/2 = A/B/C, None = not a mode *)
   r_split_a : list widf; r_split_b : list widf; r_wstruct : list widf;   (* [] = `*` or empty *)
   r_syn_ok : bool;                (* synonym column absent, `*`, or at most MAX_ARRAY_LEN u32 literals *)
-  r_splits_concat : bool          (* surfaces of the split units concatenate to the headword (the compiler never looks) *)
+  r_splits_concat : bool;         (* surfaces of the split units concatenate to the headword (the compiler never looks) *)
+  r_surface_nul : bool            (* the surface contains U+0000 *)
 }.
 
 Definition wid := (bool * Z)%type.   (* (user dictionary?, word) *)
 Record entry := mkEntry {
   e_left : Z; e_right : Z; e_cost : Z;
   e_dic_form : option wid; e_split_a : list wid; e_split_b : list wid; e_wstruct : list wid;
-  e_splits_concat : bool
+  e_splits_concat : bool; e_surface_nul : bool
 }.
 
 Definition num16 (f : numf) : option Z := match f with NumLit z => if in_ity I16 z then Some z else None | NumBad => None end.
@@ -142,15 +144,15 @@ Definition parse_wid_list (l : list widf) : option (list wid) :=
   end.
 
 Definition parse_record (r : rec) : option entry :=
-  if (18 <=? r_ncols r) && r_strings_ok r && negb (r_surface_empty r) && r_syn_ok r then
+  if (18 <=? r_ncols r) && r_strings_ok r && negb (r_surface_empty r) && r_syn_ok r && negb (r_surface_nul r && b_nul_err F) then
     match num16 (r_left r), num16 (r_right r), num16 (r_cost r), r_mode r,
           parse_wid_list (r_split_a r), parse_wid_list (r_split_b r), parse_wid_list (r_wstruct r) with
     | Some l, Some rr, Some c, Some m, Some sa, Some sb, Some ws =>
         if (0 <=? m) && (m <=? 2) && negb ((m =? 0) && negb (match sa, sb with [], [] => true | _, _ => false end)) then
           match r_dic_form r with
-          | None => Some (mkEntry l rr c None sa sb ws (r_splits_concat r))
+          | None => Some (mkEntry l rr c None sa sb ws (r_splits_concat r) (r_surface_nul r))
           | Some w => match parse_wid w with
-                      | Some d => Some (mkEntry l rr c (Some d) sa sb ws (r_splits_concat r))
+                      | Some d => Some (mkEntry l rr c (Some d) sa sb ws (r_splits_concat r) (r_surface_nul r))
                       | None => None
                       end
           end
@@ -205,7 +207,8 @@ Definition build_with (inp : input) : res dict :=
           let max0 := if user then nsys else n in
           let max1 := if user then n else 0 in
           if forallb (entry_ok nl nr max0 max1) es then
-            if existsb indexed es then Ok (mkDict nl nr st user nsys es)
+            if existsb indexed es then
+              if existsb (fun e => indexed e && e_surface_nul e) es then Panic else Ok (mkDict nl nr st user nsys es)
             else if b_empty_trie_err F then Err else Panic
           else Err
       | None => Err
@@ -267,7 +270,7 @@ Definition bfacts_ok (F : bfacts) : bool :=
   && (match b_indexed F with mkG CastNone CGe (OConst 0) => true | _ => false end)
   && (match b_wid_cmp F with CGe => true | _ => false end)
   && (match b_list_len F with mkG CastNone CGt (OConst c) => c <=? 127 | mkG CastNone CGe (OConst c) => c <=? 128 | _ => false end)
-  && negb (b_empty_panics F) && b_empty_trie_err F
+  && negb (b_empty_panics F) && b_nul_err F && b_empty_trie_err F
   && existsb (fun g => rejects_all_neg g NumLeft) (b_hdr_left_g F) && existsb (fun g => rejects_all_neg g NumRight) (b_hdr_right_g F)
   && covers_strict (b_elem_left_g F) NumLeft && covers_strict (b_elem_right_g F) NumRight
   && index_shape_ok (b_elem_index F) && index_shape_ok (b_matrix_index F)
@@ -279,7 +282,7 @@ Definition gen_bfacts : bfacts :=
   mkBFacts BuildGuards.validate_left_id_guards BuildGuards.validate_left_id_guards_indexed
            BuildGuards.validate_right_id_guards BuildGuards.validate_right_id_guards_indexed
            BuildGuards.should_index_guard BuildGuards.validate_wid_cmp BuildGuards.slash_list_len_guard BuildGuards.WORD_MASK
-           BuildGuards.conn_empty_input_panics BuildGuards.empty_trie_is_error BuildGuards.conn_header_left_guards BuildGuards.conn_header_right_guards
+           BuildGuards.conn_empty_input_panics BuildGuards.nul_surface_is_error BuildGuards.empty_trie_is_error BuildGuards.conn_header_left_guards BuildGuards.conn_header_right_guards
            BuildGuards.conn_header_fields BuildGuards.conn_line_fields
            BuildGuards.write_elem_left_guards BuildGuards.write_elem_right_guards ConnIndex.write_elem_index
            ConnIndex.matrix_index ConnIndex.cost_arg_left ConnIndex.cost_arg_right.
